@@ -276,10 +276,10 @@ def random_case(rnd, cid, big=False):
             cols.append((_pad((pre if rnd.random() < 0.9 else 'element.') + s, rnd, 0.1), 'num'))
     nv = rnd.choice([0, 1, 2, 3, 6, 12, 30]) if not big else rnd.choice([12, 24, 30])
     vib = [('vib_wavenumber', 'num')] * nv
-    rot = [('rot_temperature', 'num')] * rnd.choice([0, 0, 1, 2, 3])
+    rot = [('rot_temperature', 'num')] * rnd.choice([0, 0, 1, 2, 3, 12])
     lists = []
     for nm in rnd.sample(LIST_NAMES, rnd.choice([0, 0, 1, 2])):
-        k = rnd.randint(1, 4)
+        k = rnd.choice([1, 2, 3, 4, 4, 11, 15, 30])      # two-digit positions in every run
         if rnd.random() < 0.5:
             lists.append([('list.' + nm, 'mix')] * k)
         else:
@@ -556,21 +556,22 @@ def run(ctx):
             raise core.MachineryError('the wide header set should be rejected (ChainAgrees)\n' + wide.out[-1500:])
         ctx.coverage['headers_where_chain_order_matters'] = sorted(set(chain))
         # (S->C) the sheets of the configuration with TLC's records; the quick tier replays every
-        # sheet of the five-column layouts and a seeded 38 % sample of the others (every layout
+        # sheet of the five-column layouts and a seeded 32 % sample of the others (every layout
         # keeps several emptiness patterns); the thorough tier replays all
         ctx.coverage['tlc_sheets'] = len(tcases)
         rnd = random.Random(ctx.seed)
         cases = []
         tcases.sort(key=lambda c: json.dumps([c['headers'], c['rows']]))
         for k, c in enumerate(tcases):
-            mixed = 7 in c['lay'] and any(k in c['lay'] for k in (4, 5, 6))    # formula + element.X
-            if ctx.quick and c['how'] == 'all' and not mixed and rnd.random() < 0.62:
+            mixed = (7 in c['lay'] and any(k in c['lay'] for k in (4, 5, 6))    # formula + element.X
+                     or max(c['lay']) > 24)                                     # two-digit indices
+            if ctx.quick and c['how'] == 'all' and not mixed and rnd.random() < 0.68:
                 continue
             cases.append({'cid': 't%d' % k, 'kind': 'tlc', 'headers': c['headers'], 'rows': c['rows'],
                           'expected': c['expected'], 'comment': k % 2 == 0, 'skip_empty_list': k % 4 == 1})
-        for k in range(ctx.pick(600, 6000)):
+        for k in range(ctx.pick(400, 6000)):
             cases.append(random_case(rnd, 'r%d' % k, big=False))
-        for k in range(ctx.pick(60, 1500)):
+        for k in range(ctx.pick(40, 1500)):
             cases.append(random_case(rnd, 'b%d' % k, big=True))
         rc = repo_cases()
         ctx.coverage['repo_sheets'] = len(rc)
